@@ -689,7 +689,14 @@ func c08(c *Ctx) {
 		total := func(v ssa.Value, sq bool) (bool, string) {
 			v = ptrOrigin(v)
 			if ld, ok := v.(*ssa.UnOp); ok && ld.Op == token.MUL {
-				ia, ok := ld.X.(*ssa.IndexAddr)
+				// S[n-1], or S[n-1].f for a slice of running-total structs
+				field := -1
+				addr := ld.X
+				if fa, isFA := addr.(*ssa.FieldAddr); isFA {
+					field = fa.Field
+					addr = fa.X
+				}
+				ia, ok := addr.(*ssa.IndexAddr)
 				if !ok {
 					return false, "not an element of a prefix-sum slice: " + exprString(v, 0)
 				}
@@ -703,42 +710,78 @@ func c08(c *Ctx) {
 				if k, isC := constInt(idx.Y); !isC || k != 1 {
 					return false, "the index is not len(values)-1: " + exprString(ia.Index, 0)
 				}
-				// the slice holds prefix sums of x (resp. x*x): some store S[i] = term + S[i-1] (either order)
+				// the slice holds prefix sums of x (resp. x*x): some store S[i](.f) = term + S[j](.f) (either order)
 				okTerm := false
-				for _, g := range []*ssa.Function{ft} {
-					eachInstr(g, func(in ssa.Instruction) {
-						st, ok := in.(*ssa.Store)
-						if !ok {
-							return
+				sameSlice := func(x ssa.Value) bool { return ptrOrigin(x) == ptrOrigin(ia.X) }
+				prevElem := func(prev ssa.Value) bool {
+					pl, ok := prev.(*ssa.UnOp)
+					if !ok || pl.Op != token.MUL {
+						return false
+					}
+					pa := pl.X
+					if field >= 0 {
+						fa, isFA := pa.(*ssa.FieldAddr)
+						if !isFA || fa.Field != field {
+							return false
 						}
-						da, ok := st.Addr.(*ssa.IndexAddr)
-						if !ok || ptrOrigin(da.X) != ptrOrigin(ia.X) {
-							return
-						}
-						add := asBinOp(st.Val, token.ADD)
-						if add == nil {
-							return
-						}
-						for _, pair := range [][2]ssa.Value{{add.X, add.Y}, {add.Y, add.X}} {
-							term, prev := pair[0], pair[1]
-							pl, ok := prev.(*ssa.UnOp)
-							if !ok || pl.Op != token.MUL {
-								continue
-							}
-							pa, ok := pl.X.(*ssa.IndexAddr)
-							if !ok || ptrOrigin(pa.X) != ptrOrigin(ia.X) {
-								continue
-							}
-							elem := isElem
-							if !sq && elem(term) {
-								okTerm = true
-							}
-							if m := asBinOp(term, token.MUL); sq && m != nil && elem(m.X) && elem(m.Y) {
-								okTerm = true
-							}
-						}
-					})
+						pa = fa.X
+					}
+					pia, ok := pa.(*ssa.IndexAddr)
+					return ok && sameSlice(pia.X)
 				}
+				checkSum := func(val ssa.Value) {
+					add := asBinOp(val, token.ADD)
+					if add == nil {
+						return
+					}
+					for _, pair := range [][2]ssa.Value{{add.X, add.Y}, {add.Y, add.X}} {
+						term, prev := pair[0], pair[1]
+						if !prevElem(prev) {
+							continue
+						}
+						if !sq && isElem(term) {
+							okTerm = true
+						}
+						if m := asBinOp(term, token.MUL); sq && m != nil && isElem(m.X) && isElem(m.Y) {
+							okTerm = true
+						}
+					}
+				}
+				eachInstr(ft, func(in ssa.Instruction) {
+					st, ok := in.(*ssa.Store)
+					if !ok {
+						return
+					}
+					da := st.Addr
+					if fa, isFA := da.(*ssa.FieldAddr); isFA && field >= 0 && fa.Field == field {
+						if dia, ok := fa.X.(*ssa.IndexAddr); ok && sameSlice(dia.X) {
+							checkSum(st.Val)
+						}
+						return
+					}
+					dia, ok := da.(*ssa.IndexAddr)
+					if !ok || !sameSlice(dia.X) {
+						return
+					}
+					if field < 0 {
+						checkSum(st.Val)
+						return
+					}
+					// a whole running-total struct built in a literal and stored
+					if wl, isLd := st.Val.(*ssa.UnOp); isLd && wl.Op == token.MUL {
+						if tmp, isAl := wl.X.(*ssa.Alloc); isAl {
+							for _, ref := range referrers(tmp) {
+								if tf, ok := ref.(*ssa.FieldAddr); ok && tf.Field == field {
+									for _, r2 := range referrers(tf) {
+										if fs, ok := r2.(*ssa.Store); ok && fs.Addr == ssa.Value(tf) {
+											checkSum(fs.Val)
+										}
+									}
+								}
+							}
+						}
+					}
+				})
 				if !okTerm {
 					return false, "the slice is not filled with prefix sums of the values"
 				}
